@@ -12,6 +12,9 @@ def run(ctx):
     # block sources moved / move-assigned / swapped while blocks are outstanding (static storage, reserved virtual memory)
     st.update(subjects.run(ctx, "C12", ["lifo-static", "lifo-virtual"] + subjects.ARENA, ["rwdi", "dbg"], n, 60))
     st.update(subjects.run(ctx, "C12", subjects.POOL + subjects.COLL, ["rwdi", "dbg", "rel"] if ctx.thorough else ["rwdi", "dbg"], max(3, n // 2), 120))
+    import common
+    exs = subjects.exes(ctx, ["rwdi", "dbg"], ["subj_stack"])["subj_stack"]
+    st.update(common.run_subjects(ctx, "C12", exs, [dict(subject="arena-assign", cfg=c, seed=ctx.seed, nops=1) for c in ("rwdi", "dbg")], use_driver=False))
     moves = sum(v.get("moves", 0) for v in st.values())
     ctx.coverage["moves_executed"] = moves
     ctx.coverage["rule"] = ("histories with move construction at seeded positions (new object placed below or above the memory blocks), the "
